@@ -170,7 +170,7 @@ class Parser:
             return self.block()
         return [self.stmt()]
 
-    TYPES = ("ValueType", "Evaluation", "int", "unsigned", "double", "Scalar")
+    TYPES = ("ValueType", "Evaluation", "int", "unsigned", "double", "Scalar", "RhsValueType")
 
     def stmt(self):
         k, v = self.peek()
